@@ -57,6 +57,11 @@ pub struct World {
     /// flush error); the server answers a delivered request like any other
     #[serde(default)]
     pub send_faults: Vec<(u8, bool)>,
+    /// every send hands its bytes to the server at once but returns only when the schedule lets
+    /// it (a flush that takes time): the server can answer, and another task can read that answer,
+    /// while `rpc()` is still inside its send
+    #[serde(default)]
+    pub slow_flush: bool,
 }
 
 type Tagged = Result<String, String>;
@@ -82,6 +87,7 @@ pub struct Trace {
     pub out_of_order: bool,
     pub parked: bool,
     pub gate_used: bool,
+    pub slow_flush_used: bool,
     pub drop_classes: Vec<String>,
     /// request indices whose reply was taken off the transport by a task that was dropped later
     pub consumed_by_dropped: Vec<usize>,
@@ -165,6 +171,9 @@ pub fn run_world(w: &World) -> Result<Trace, String> {
     let gated = w.gate_closes > 0;
     if gated {
         wire.set_send_credits(Some(0));
+    }
+    if w.slow_flush {
+        wire.set_send_lingers(true);
     }
     let mut send_fault: Vec<Option<bool>> = vec![None; n];
     for (i, delivered) in &w.send_faults {
@@ -262,6 +271,7 @@ pub fn run_world(w: &World) -> Result<Trace, String> {
         GateClose,
         GateOpen,
         Drop(usize),
+        FinishSend,
     }
 
     loop {
@@ -356,6 +366,9 @@ pub fn run_world(w: &World) -> Result<Trace, String> {
                 // hand out one credit: exactly one pending send may complete
                 acts.push(Act::GateOpen);
             }
+            if wire.send_lingering() {
+                acts.push(Act::FinishSend);
+            }
             if drops_left > 0 && phase == 1 {
                 for (g, t) in &group_task {
                     if !exec.tasks[*t].done {
@@ -368,6 +381,10 @@ pub fn run_world(w: &World) -> Result<Trace, String> {
             gate_closed = false;
             wire.set_send_credits(None);
             trace.log.push("sends ungated (drain)".into());
+            continue;
+        } else if wire.send_lingering() {
+            wire.set_send_lingers(false);
+            trace.log.push("sends complete at once (drain)".into());
             continue;
         }
         let act = if acts.is_empty() {
@@ -428,6 +445,11 @@ pub fn run_world(w: &World) -> Result<Trace, String> {
                 trace.log.push("inject stray".into());
             }
             Act::GateClose => {}
+            Act::FinishSend => {
+                trace.slow_flush_used = true;
+                wire.finish_send();
+                trace.log.push("let a delivered send return".into());
+            }
             Act::GateOpen => {
                 trace.gate_used = true;
                 wire.set_send_credits(Some(1));
@@ -520,6 +542,9 @@ fn judge(w: &World, prop_id: &str, obs: &mut Obs) {
     }
     if trace.gate_used {
         obs.class("send-gated");
+    }
+    if trace.slow_flush_used {
+        obs.class("send-returns-after-the-server-could-answer");
     }
     if !trace.stray_ids.is_empty() {
         obs.class("stray-reply");
@@ -670,10 +695,11 @@ fn world_strategy(max_n: usize, drops: bool, sched_len: usize) -> BoxedStrategy<
                     3 => Just(Vec::new()),
                     1 => prop::collection::vec((0..n as u8, any::<bool>()), 1..3),
                 ],
+                prop::bool::weighted(0.3),
             )
         })
         .prop_map(
-            |(ops, arrival, groups, sequential, strays, gate_closes, drops, schedule, send_faults)| World {
+            |(ops, arrival, groups, sequential, strays, gate_closes, drops, schedule, send_faults, slow_flush)| World {
                 ops,
                 arrival,
                 groups,
@@ -683,6 +709,7 @@ fn world_strategy(max_n: usize, drops: bool, sched_len: usize) -> BoxedStrategy<
                 drops,
                 schedule,
                 send_faults,
+                slow_flush,
             },
         )
         .boxed()
